@@ -19,8 +19,10 @@ import Darling.Derive.Outer
     * `struct_reports_partial`, `enum_reports_partial`, `map_reports`, `deep_reports_partial`
         — second sentence (leaves = mistakes, one for one, with tags and paths): under the side
           conditions `StructOk` / `EnumOk` / `MapOk`, which exclude exactly the discrepancies
-          D1–D4 between the text and the model (section 7 gives each as a concrete input; all of
-          them reproduce on the library; of D4 only the parse-failure case was repaired);
+          D1, D2, D4 between the text and the model (section 7 gives each as a concrete input; all
+          of them reproduce on the library; of D4 only the parse-failure case was repaired; D3,
+          the element index of a `multiple` field, was repaired in the library and in the model,
+          and its side condition is gone);
     * `outer_attr_layer_first`, `outer_body_layer` — the two layers of element-level receivers.
 -/
 set_option autoImplicit false
@@ -339,7 +341,7 @@ structure Reading where
   /-- not supplying it is fine (the type has a value for "absent") -/
   optional : Bool
   /-- the inputs on which the library returns exactly `item` / `list` (those that avoid the
-      discrepancies D1–D4 at every depth inside); the *verdict* never needs them -/
+      discrepancies D1, D2, D4 at every depth inside); the *verdict* never needs them -/
   okItem : Meta → Prop
   okList : List NestedMeta → Prop
 
@@ -446,24 +448,14 @@ structure Decl (r : SStruct ν) (rd : SField ν → Reading) : Prop extends Shap
 
 /-! ### the places where the model (and the library) fall short of the text -/
 
-/-- what is wrong inside an item, as its field's type reads it -/
-def inside (r : SStruct ν) (rd : SField ν → Reading) : NestedMeta → List Mistake
-  | .lit _ => []
-  | .item m => match addressed r m.path'.toStr with
-      | some f => (rd f).item m
-      | none => []
-
 /-- side condition for one item, given the items before it:
     * (D1) if it repeats the name of a single-valued field, nothing is wrong inside it;
-    * (D3) if it belongs to a `multiple` field and something is wrong inside it, nothing was wrong
-      inside the earlier items of the same name;
-    * (depth) otherwise its value avoids D1–D4 inside, as the field's reading says -/
+    * (depth) otherwise its value avoids D1, D2, D4 inside, as the field's reading says -/
 def ItemOk (r : SStruct ν) (rd : SField ν → Reading) (earlier : List NestedMeta) (it : NestedMeta) : Prop :=
   ∀ m, it = .item m → ∀ f, addressed r m.path'.toStr = some f →
     (f.multiple = false → occurrences earlier m.path'.toStr > 0 → (rd f).item m = []) ∧
     (f.multiple = false → occurrences earlier m.path'.toStr = 0 → (rd f).okItem m) ∧
-    (f.multiple = true → (rd f).okItem m ∧ ((rd f).item m ≠ [] →
-      ∀ it' ∈ earlier, nameOf it' = some m.path'.toStr → inside r rd it' = []))
+    (f.multiple = true → (rd f).okItem m)
 
 def WalkOk (r : SStruct ν) (rd : SField ν → Reading) : List NestedMeta → List NestedMeta → Prop
   | _, [] => True
@@ -476,7 +468,7 @@ def StructOk (r : SStruct ν) (rd : SField ν → Reading) (items : List NestedM
 /-! ### proofs: the model's struct parser computes `structMistakes` -/
 
 section structProofs
-open Spec.C02 (selects successes loopMistakes)
+open Spec.C02 (selects loopMistakes)
 
 theorem pairwise_inj {α β : Type} (k : α → β) : ∀ (l : List α), l.Pairwise (fun a b => k a ≠ k b) →
     ∀ a ∈ l, ∀ b ∈ l, k a = k b → a = b
@@ -531,35 +523,15 @@ theorem any_selects {r : SStruct ν} (hwf : WF r) {n : String} {f : SField ν} (
       simp only [List.any_cons, ih, selects_eq_name hwf harm it, occurrences, List.filter_cons]
       cases hb : (nameOf it == some n) <;> simp
 
-theorem inside_of_arm {r : SStruct ν} {rd : SField ν → Reading} {m : Meta} {f : SField ν}
-    (harm : r.arm m.path'.toStr = some f) : inside r rd (.item m) = (rd f).item m := by
-  simp [inside, addressed_eq_arm, harm]
-
-/-- when nothing was wrong inside the earlier occurrences, the element index the library prints is
-    the occurrence index -/
-theorem successes_length {r : SStruct ν} {rd : SField ν → Reading} (hd : Decl r rd) {n : String} {f : SField ν}
-    (harm : r.arm n = some f) (earlier : List NestedMeta)
-    (hclean : ∀ it' ∈ earlier, nameOf it' = some n → inside r rd it' = []) :
-    (successes r f earlier).length = occurrences earlier n := by
-  have hwf := hd.wf
-  induction earlier with
-  | nil => simp [successes, occurrences]
-  | cons it rest ih =>
-      have ih' := ih (fun x hx => hclean x (by simp [hx]))
-      have hsel := selects_eq_name hwf harm it
-      unfold successes occurrences at *
-      rw [List.filterMap_cons, List.filter_cons]
-      cases it with
-      | lit l => simpa [nameOf] using ih'
-      | item m =>
-          by_cases hn : m.path'.toStr = n
-          · have hname : nameOf (.item m) = some n := by simp [nameOf, hn]
-            have hin := hclean (.item m) (by simp) hname
-            rw [inside_of_arm (by rw [hn]; exact harm)] at hin
-            obtain ⟨v, hc⟩ := ((hd.reads f (arm_mem r _ f harm).1).vItem m).clean hin
-            simp [hsel, hname, hc, ih']
-          · have hname : (nameOf (.item m) == some n) = false := by simp [nameOf, hn]
-            simp [hsel, hname, ih']
+/-- the element index the library prints for an occurrence of a `multiple` field is the number of
+    earlier items carrying that name -/
+theorem occurrences_eq {r : SStruct ν} (hwf : WF r) {n : String} {f : SField ν} (harm : r.arm n = some f)
+    (earlier : List NestedMeta) : Spec.C02.occurrences r f earlier = occurrences earlier n := by
+  unfold Spec.C02.occurrences occurrences
+  congr 1
+  apply List.filter_congr
+  intro it _
+  exact selects_eq_name hwf harm it
 
 theorem tagOf_literal : tagOf (.unexpectedFormat "literal") = .bareLiteral := by decide
 theorem tagOf_expression : tagOf (.unexpectedFormat "expression") = .bareLiteral := by decide
@@ -572,7 +544,7 @@ theorem single_faithful (k : Kind) (sp : Span) :
     subst he
     simp [reported_withSpan, reported_new]⟩
 
-/-- one item: the model's contribution is the text's, unless D1 or D3 applies -/
+/-- one item: the model's contribution is the text's, unless D1 applies -/
 theorem item_faithful {r : SStruct ν} {rd : SField ν → Reading} (hd : Decl r rd) (earlier : List NestedMeta)
     (it : NestedMeta) (hok : ItemOk r rd earlier it) :
     Faithful (Spec.C02.itemMistakes r earlier it) (itemMistakes r rd earlier it) := by
@@ -597,21 +569,13 @@ theorem item_faithful {r : SStruct ν} {rd : SField ν → Reading} (hd : Decl r
           simp only []
           cases hmul : f.multiple with
           | true =>
-              obtain ⟨hokm, hD3⟩ := hmulti hmul
-              have hrep := (hd.reads f hfm).item m hokm
+              have hrep := (hd.reads f hfm).item m (hmulti hmul)
               simp only [if_true]
-              by_cases hbad : (rd f).item m = []
-              · -- nothing wrong inside: both sides are empty
-                rw [hbad] at hrep ⊢
-                cases hc : f.conv m with
-                | ok v => exact Faithful.nil
-                | err e => rw [hc] at hrep; exact absurd rfl hrep.1
-                | panic p => rw [hc] at hrep; exact hrep.elim
-              · rw [successes_length hd harm earlier (hD3 hbad), hname]
-                revert hrep
-                generalize f.conv m = o
-                intro hrep
-                cases o <;> exact Faithful.of_reports ((hrep.withSpan m.span).at _)
+              rw [occurrences_eq hwf harm earlier, hname]
+              revert hrep
+              generalize f.conv m = o
+              intro hrep
+              cases o <;> exact Faithful.of_reports ((hrep.withSpan m.span).at _)
           | false =>
               simp only [Bool.false_eq_true, if_false]
               rw [any_selects hwf harm earlier]
@@ -831,8 +795,8 @@ theorem mistakes_faithful {r : SStruct ν} {rd : SField ν → Reading} (hd : De
     (hok : StructOk r rd items) : Faithful (Spec.C02.mistakes r items) (structMistakes r rd items) :=
   ((walk_faithful hd items [] hok.1).append (flatten_faithful hd items hok.2)).append (absent_faithful hd items)
 
-/-! the verdict needs no side condition: D1 and D3 change *which* leaves are returned, never
-    whether parsing fails -/
+/-! the verdict needs no side condition: D1 changes *which* leaves are returned, never whether
+    parsing fails -/
 
 theorem item_agree {r : SStruct ν} {rd : SField ν → Reading} (hd : Decl r rd) (earlier : List NestedMeta)
     (it : NestedMeta) : Agree (Spec.C02.itemMistakes r earlier it) (itemMistakes r rd earlier it) := by
@@ -887,7 +851,7 @@ theorem mistakes_agree {r : SStruct ν} {rd : SField ν → Reading} (hd : Decl 
 
 end structProofs
 
-/-- **C02 for struct receivers, against the text** (conditional: `StructOk` excludes D1 and D3).
+/-- **C02 for struct receivers, against the text** (conditional: `StructOk` excludes D1).
     For every declaration, every reading of its field types that the fields meet, and every item
     list: the generated parser succeeds exactly when the text sees no mistake, and otherwise
     returns an error whose leaves are, one for one and in order, the mistakes the text sees — each
@@ -966,7 +930,7 @@ structure EnumDecl (e : SEnum ν) (nt : SVariant ν → Reading) (sf : SVariant 
     * (D2) when the count is wrong, nothing else is wrong with any item;
     * (D4) a unit variant is given as a bare name and a struct variant as a list `name(...)`
       (a list that does not parse is fine: that error is located under the variant's name);
-    * (depth) the content of a newtype or struct variant avoids D1–D4 inside -/
+    * (depth) the content of a newtype or struct variant avoids D1, D2, D4 inside -/
 structure EnumOk (e : SEnum ν) (nt : SVariant ν → Reading) (sf : SVariant ν → SField ν → Reading)
     (items : List NestedMeta) : Prop where
   countOnly : items.length ≥ 2 → ∀ it ∈ items, enumItem e nt sf it = []
@@ -1016,7 +980,7 @@ theorem wrongForm_reports {α : Type} (k : Kind) (hk : tagOf k = .rejected) (sp 
   exact h
 
 /-- **C02 for enum receivers, against the text** (conditional: `EnumOk` excludes D2, D4 and, inside a
-    newtype or struct variant, D1–D4) -/
+    newtype or struct variant, D1, D2, D4) -/
 theorem enum_reports_partial {e : SEnum ν} {nt : SVariant ν → Reading} {sf : SVariant ν → SField ν → Reading}
     (hd : EnumDecl e nt sf) (items : List NestedMeta) (hok : EnumOk e nt sf items) :
     Reports (enumFromList e items) (enumMistakes e nt sf items) := by
@@ -1145,7 +1109,7 @@ def mapWalk (k : Maps.KeyKind) (vr : Reading) : List NestedMeta → List NestedM
 def mapMistakes (k : Maps.KeyKind) (vr : Reading) (items : List NestedMeta) : List Mistake :=
   mapWalk k vr [] items
 
-/-- the entry values avoid D1–D4 inside -/
+/-- the entry values avoid D1, D2, D4 inside -/
 def MapOk (vr : Reading) (items : List NestedMeta) : Prop := ∀ m, NestedMeta.item m ∈ items → vr.okItem m
 
 section mapProofs
@@ -1618,7 +1582,7 @@ theorem deep_fails_iff {h : Hooks ν} {t : Reading} (hb : Built h t) (items : Li
     ((∃ e, h.fromList items = .err e) ↔ t.list items ≠ []) ∧ ((∃ v, h.fromList items = .ok v) ↔ t.list items = []) :=
   ⟨(deep_verdict hb items).fails_iff, (deep_verdict hb items).ok_iff⟩
 
-/-- **C02 at any nesting depth, second sentence (conditional).**  On the inputs that avoid D1–D4 at
+/-- **C02 at any nesting depth, second sentence (conditional).**  On the inputs that avoid D1, D2, D4 at
     every depth (`t.okList`), the leaves of the returned error are, one for one and in order, the
     mistakes the text sees, each with its tag and its outer-to-inner path. -/
 theorem deep_reports_partial {h : Hooks ν} {t : Reading} (hb : Built h t) (items : List NestedMeta)
@@ -1836,7 +1800,7 @@ def okIn : List NestedMeta :=
 
 theorem okIn_ok : StructOk outerS (fun _ => innerR) okIn := by
   simp [StructOk, WalkOk, ItemOk, okIn, lst, good, bad, pth, addressed, outerS, mk, fld, innerR, structReading,
-    okRouted, innerS, occurrences, nameOf, Path.toStr, Meta.path', routed, inside, u8R]
+    okRouted, innerS, occurrences, nameOf, Path.toStr, Meta.path', routed, u8R]
   decide
 
 example : structMistakes outerS (fun _ => innerR) okIn
@@ -1912,7 +1876,7 @@ theorem enumIn_ok : EnumOk enumE enumNt enumSf enumIn := by
   simp only [Meta.list.injEq] at hm
   obtain ⟨_, rfl, _⟩ := hm
   simp [StructOk, WalkOk, ItemOk, enumSf, u8R, mk, fld, good, bad, pth, addressed, occurrences, nameOf,
-    Path.toStr, Meta.path', inside]
+    Path.toStr, Meta.path']
 
 example : enumMistakes enumE enumNt enumSf enumIn = [(.rejected, ["st", "p"]), (.unknownName "q", ["st"])] := by
   decide
@@ -1931,7 +1895,7 @@ theorem mapIn_ok : MapOk innerR mapIn := by
   simp [mapIn, lst] at hm
   rcases hm with rfl | rfl <;>
     simp [innerR, structReading, okRouted, StructOk, WalkOk, ItemOk, u8R, innerS, mk, fld, good, bad, pth,
-      addressed, occurrences, nameOf, Path.toStr, Meta.path', inside]
+      addressed, occurrences, nameOf, Path.toStr, Meta.path']
 
 example : mapMistakes .string innerR mapIn
     = [(.rejected, ["k", "x"]), (.repeatedName "k", []), (.unknownName "zz", ["k"]), (.bareLiteral, [])] := by decide
@@ -1972,13 +1936,52 @@ example : enumMistakes enumE enumNt enumSf d2
     = [(.wrongCount, []), (.rejected, ["st", "p"]), (.unknownName "q", ["st"]), (.unknownName "nope", [])] := by
   decide
 
-/-- **D3** `m(a = "bad", a = "bad", a = 1, a = "bad")` for `#[darling(multiple)] a: Vec<u8>`: the
-    second bad occurrence is located at `a[0]` and the fourth at `a[1]` -/
+/-- **D3 (repaired)** `m(a = "bad", a = "bad", a = 1, a = "bad")` for `#[darling(multiple)] a: Vec<u8>`:
+    each bad occurrence is located at its own occurrence index — `a[0]`, `a[1]`, `a[3]` — (before
+    the repair the index was the number of values accepted so far: `a[0]`, `a[0]`, `a[1]`), and the
+    input meets `StructOk`, so the main theorem applies to it -/
 def d3 : List NestedMeta := [bad "a", bad "a", good "a", bad "a"]
-example : seen (fromList multiS d3) = [(.rejected, ["a[0]"]), (.rejected, ["a[0]"]), (.rejected, ["a[1]"])] := by
+example : seen (fromList multiS d3) = [(.rejected, ["a[0]"]), (.rejected, ["a[1]"]), (.rejected, ["a[3]"])] := by
   decide
 example : structMistakes multiS (fun _ => u8R) d3
     = [(.rejected, ["a[0]"]), (.rejected, ["a[1]"]), (.rejected, ["a[3]"])] := by decide
+example : seen (fromList multiS d3) = structMistakes multiS (fun _ => u8R) d3 := by decide
+
+theorem multiShape : Shape multiS := by
+  refine ⟨?_, ?_, ?_, ?_, ?_, ?_⟩
+  · simp [Distinct, multiS, mk]
+  · intro f hf; simp [multiS, mk, fld] at hf; subst hf; simp
+  · intro f hf g hg hfl; simp [multiS, mk, fld] at hf; subst hf; simp at hfl
+  · intro f hf _ _; simp [multiS, mk, fld] at hf; subst hf; simp [addressed, multiS, mk, fld]
+  · intro f hf hd; simp [multiS, mk, fld] at hf; subst hf; simp at hd
+  · intro v; exact ⟨v, rfl⟩
+
+theorem multiDecl : Decl multiS (fun _ => u8R) :=
+  ⟨multiShape, fun f hf => FieldReads.of_meets u8_meets
+    (by simp [multiS, mk, fld] at hf; subst hf; exact ⟨rfl, rfl, rfl⟩)⟩
+
+/-- every item list meets the side condition of a receiver whose only field is `multiple` and of
+    a leaf type: no clause of `StructOk` speaks about the indices any more -/
+theorem multi_ok (items : List NestedMeta) : StructOk multiS (fun _ => u8R) items := by
+  refine ⟨?_, by intro ff hff; simp [multiS, mk, fld] at hff⟩
+  have h : ∀ (rest earlier : List NestedMeta), WalkOk multiS (fun _ => u8R) earlier rest := by
+    intro rest
+    induction rest with
+    | nil => intro _; trivial
+    | cons it rest ih =>
+        intro earlier
+        refine ⟨?_, ih _⟩
+        intro m _ f hf
+        have hm : f.multiple = true := by
+          have := List.mem_of_find?_eq_some hf
+          simp [multiS, mk, fld] at this; subst this; rfl
+        refine ⟨fun h => ?_, fun h => ?_, fun _ => trivial⟩
+        · rw [hm] at h; cases h
+        · rw [hm] at h; cases h
+  exact h items []
+
+example : Reports (fromList multiS d3) [(.rejected, ["a[0]"]), (.rejected, ["a[1]"]), (.rejected, ["a[3]"])] :=
+  struct_reports_partial multiDecl d3 (multi_ok d3)
 
 /-- **D4** `e(unit = 1)`, `e(st = 1)`: the leaf neither names the variant nor carries it in its path -/
 example : seen (enumFromList enumE [good "unit"]) = [(.rejected, [])] := by decide
